@@ -440,14 +440,14 @@ async fn run_with(c: Case, limit: u16, steps: Vec<Op>, write_hw: usize) -> Resul
     let must_end = inject(&c, &mut w).await;
     w.eut.settle().await;
     w.poll_all();
-    if c.cause == Cause::HandlerErrLate && must_end && !(c.scenario == 10 && !c.role.is_server()) {
+    if matches!(c.cause, Cause::HandlerErrLate | Cause::HandlerErrFront) && must_end && !(c.scenario == 10 && !c.role.is_server()) {
         // the handler has failed: the connection must end now, not when something else happens to wake the dispatcher
         let ev = app.events();
         if ev.iter().any(|e| matches!(e, Ev::PubExit { outcome: Outcome::Err, .. })) && !ev.iter().any(|e| matches!(e, Ev::Stop(_))) {
             return Err(Failure::new(
                 "handler-error-not-acted-upon",
                 format!("C07/{}/handler-error-not-acted-upon", c.role.name()),
-                format!("a publish handler failed after having been suspended, older handlers are still running, and no Stop notification was delivered; events {:?}", brief_events(&ev)),
+                format!("a publish handler failed after having been suspended while other handlers are still running, and no Stop notification was delivered; events {:?}", brief_events(&ev)),
             ));
         }
     }
